@@ -321,7 +321,7 @@ Qed.
 
 Lemma ainv_step : forall v σ o, ainv σ -> ainv (astep C v σ o).
 Proof.
-  intros v σ o I. destruct o as [| | |frames| | |n]; cbn [astep].
+  intros v σ o I. destruct o as [| | |frames| | | |n]; cbn [astep].
   - apply ainv_execute; auto.
   - apply ainv_execute_k; auto.
   - apply ainv_execute_k; auto.
@@ -334,6 +334,7 @@ Proof.
       by (destruct (ac_lost_loop C); auto using ainv_lost_loop).
     destruct (ac_lost_clears C && negb (ac_lost_clear_first C)); auto using ainv_set_conn.
   - unfold do_made. destruct (ac_made_connected C); auto using ainv_set_conn.
+  - unfold do_close. destruct (ac_close_clears C); auto using ainv_set_conn.
   - unfold do_skip. constructor; cbn; auto using (i_perm σ I), (i_nodup σ I), (i_pend σ I).
     + intros d t Hin. destruct (i_range σ I _ _ Hin). split; auto; lia.
     + rewrite (i_tid σ I). apply iter_tid.
@@ -445,6 +446,7 @@ Proof.
       by (destruct (ac_lost_loop C); auto using noreact_lost_loop).
     destruct (ac_lost_clears C && negb (ac_lost_clear_first C)); auto.
   - unfold do_made. destruct (ac_made_connected C); auto.
+  - unfold do_close. destruct (ac_close_clears C); auto.
   - exact H.
 Qed.
 
@@ -487,6 +489,7 @@ Proof.
     destruct (ac_lost_clears C && ac_lost_clear_first C); destruct (ac_lost_loop C);
       destruct (ac_lost_clears C && negb (ac_lost_clear_first C)); cbn; rewrite ?E; auto.
   - unfold do_made. destruct (ac_made_connected C); reflexivity.
+  - unfold do_close. destruct (ac_close_clears C); reflexivity.
   - reflexivity.
 Qed.
 
@@ -574,6 +577,16 @@ Proof.
   apply (lost_loop_drains v (a_pending σ) (set_conn σ false)); reflexivity.
 Qed.
 
+(* close(): the flag is cleared at once, nothing else changes — so a request issued after close()
+   fails at once even before the loss of the transport is reported *)
+Theorem close_disconnects : forall v σ,
+  let σ' := astep C v σ Close in
+  a_conn σ' = false /\ a_pending σ' = a_pending σ /\ a_fired σ' = a_fired σ /\ a_sent σ' = a_sent σ.
+Proof.
+  intros v σ. cbn. unfold do_close.
+  destruct HC as (_ & _ & _ & _ & _ & _ & _ & _ & _ & _ & _ & _ & _ & _ & Hc & _). rewrite Hc. cbn. auto.
+Qed.
+
 Theorem execute_when_disconnected : forall v σ, a_conn σ = false ->
   let σ' := astep C v σ Execute in
   a_pending σ' = a_pending σ /\ a_conn σ' = false /\
@@ -603,6 +616,7 @@ Proof.
     revert σ Hc. induction frames as [|[[u tid] rid] r IH]; intros σ Hc; cbn; auto.
     apply IH. destruct (unit_ok C u0 u); auto using conn_handle.
   - destruct (lost_errbacks_all v σ) as (_ & H & _). exact H.
+  - unfold do_close. destruct (ac_close_clears C); auto.
   - exact Hc.
 Qed.
 
@@ -704,7 +718,7 @@ Qed.
 
 Lemma dinv_step : forall σ o, dinv σ -> dinv (astep C VDict σ o).
 Proof.
-  intros σ o D. destruct o as [| | |frames| | |n]; cbn [astep].
+  intros σ o D. destruct o as [| | |frames| | | |n]; cbn [astep].
   - apply dinv_execute; auto.
   - apply dinv_execute_k; auto.
   - apply dinv_execute_k; auto.
@@ -719,6 +733,7 @@ Proof.
       by (destruct (ac_lost_loop C); auto using dinv_lost_loop).
     destruct (ac_lost_clears C && negb (ac_lost_clear_first C)); auto. eapply dinv_ext; [| | |exact D1]; auto.
   - unfold do_made. destruct (ac_made_connected C); auto. apply (dinv_ext σ); auto.
+  - unfold do_close. destruct (ac_close_clears C); auto. apply (dinv_ext σ); auto.
   - unfold do_skip. apply (dinv_ext σ); auto.
 Qed.
 
